@@ -90,6 +90,8 @@ def strategy(draw, tier="quick"):
     cell, time = _norm(fmt, draw(st.booleans()), draw(st.booleans()))
     case = {"fmt": fmt, "na": draw(st.sampled_from([3, 9, 10, 12])), "comp": comp, "cell": cell, "time": time,
             "tric": draw(st.booleans()) and files.FORMATS[fmt].get("tric", False), "seed": draw(st.integers(0, 3))}
+    if case["tric"] and case["cell"]:
+        case["cellmode"] = draw(st.sampled_from(["tric", "tric", "ortho-then-tric", "tric-then-ortho"]))
     mode = draw(st.sampled_from(["plain", "plain", "ragged", "crash"]))
     if mode == "ragged" and RAGGED[fmt]:
         kinds = [k for k in RAGGED[fmt] if _ragged_applicable(k, cell, time)]
@@ -125,6 +127,10 @@ def enumerate_cases(tier):
                             continue
                         seen.add((c, t))
                         yield {"fmt": fmt, "na": 10, "comp": comp, "cell": c, "time": t, "tric": False, "seed": 0}
+                        if c and n >= 2 and files.FORMATS[fmt].get("tric", False):
+                            # the same compositions with a cell that is rectangular in the first half and skewed in the second
+                            yield {"fmt": fmt, "na": 10, "comp": comp, "cell": c, "time": t, "tric": True, "seed": 0,
+                                   "cellmode": "ortho-then-tric"}
     for fmt in FMTS:
         for kind in RAGGED[fmt]:
             for cell in (True, False):
@@ -220,7 +226,7 @@ def run_case(case):
     fmt, comp, cell, time = case["fmt"], case["comp"], case["cell"], case["time"]
     n = sum(comp)
     viol, labels = [], ["fmt:" + fmt]
-    tr = files.file_traj(n, case["na"], ("tric" if case.get("tric") else "ortho-vary"), case["seed"], time="offset")
+    tr = files.file_traj(n, case["na"], (case.get("cellmode") or "tric") if case.get("tric") else "ortho-vary", case["seed"], time="offset")
     what = ["xyz"] + (["cell"] if cell else []) + (["time"] if (time and files.FORMATS[fmt]["time"]) else [])
     with warnings.catch_warnings(), files.scratch() as d:
         warnings.simplefilter("ignore")
